@@ -119,10 +119,11 @@ VALS = [1, 'a', None, 2.5, (1, 2)]
 
 
 def gen_case(rng, prop='C19'):
-    spec = gen_spec(rng)
     kind = rng.choice(['func', 'func', 'method', 'instance', 'func', 'func', 'method', 'instance',
                        'classmethod', 'classmethod_via_instance', 'staticmethod', 'wrapped', 'async', 'generator', 'lambda',
                        'method_of_falsy_instance', 'instance_with_name', 'instance_static_call'])
+    # (a plain function may call its first parameter what validate/isvalid call theirs)
+    spec = gen_spec(rng, hostile_names=(['func', 'args', 'kwds'] if kind == 'func' else None))
     case = {'spec': spec, 'kind': kind, 'seed': rng.randrange(1 << 30)}
     if kind == 'wrapped':
         case['wspec'] = gen_spec(rng)
